@@ -288,6 +288,7 @@ PROPS = {
     "C02": {
         "lean": "SymfcModel.Props.C02", "gen": ["SumRule", "PermTables"],
         "corr": [{"fn": S.corr_coset, "quick": {"n_cases": 36}, "thorough": {"n_cases": 300}},
+                 {"fn": S.corr_spg_reps, "quick": {"n_cases": 12}, "thorough": {"n_cases": 90}},
                  {"fn": C.corr_cell_index, "quick": {"n_cases": 15}, "thorough": {"n_cases": 90}}],
         "oracle": [{"name": "first_order_basis", "fn": o_basis_o1, "quick": {"n": 8}, "thorough": {"n": 40}, "search": {"n": 24}},
                    {"name": "process_and_object_history", "fn": o_process_history, "quick": {"n": 2}, "thorough": {"n": 16}, "search": {"n": 24}},
@@ -435,7 +436,8 @@ PROPS = {
         "corr": [{"fn": C.corr_cell_index, "quick": {"n_cases": 45}, "thorough": {"n_cases": 300}},
                  {"fn": S.corr_coset, "quick": {"n_cases": 18}, "thorough": {"n_cases": 120}},
                  {"fn": corr_sgperm.corr_sg_perm, "quick": {"n_cases": 60}, "thorough": {"n_cases": 600}},
-                 {"fn": corr_sgperm.corr_sg_full, "quick": {"n_cases": 60}, "thorough": {"n_cases": 800}}],
+                 {"fn": corr_sgperm.corr_sg_full, "quick": {"n_cases": 60}, "thorough": {"n_cases": 800}},
+                 {"fn": S.corr_spg_reps, "quick": {"n_cases": 12}, "thorough": {"n_cases": 90}}],
         "oracle": [{"name": "sg_perms", "fn": o_sg, "quick": {"n": 24}, "thorough": {"n": 120}, "search": {"n": 60}}],
         "trusted": [KERNELS["spglib"], KERNELS["float"], "float tolerance matching of positions (symprec, rounding) is not modelled"],
     },
